@@ -92,6 +92,7 @@ type FnCtx struct {
 	localMaps map[string]bool
 	refArr   map[string]bool
 	siteCount int
+	rangeN   int
 	relMode  bool
 	relLeft  *Frame
 	suppress int
@@ -132,6 +133,7 @@ type Frame struct {
 	failed   map[int]string // propagates clause ord -> ghost local name
 	tagStr   string
 	relSites map[string]*relPoint
+	mapRanges map[*ssa.Range]*mapRange
 	relTag   string
 }
 
@@ -139,6 +141,13 @@ type deferRec struct {
 	instr *ssa.Defer
 	guard string
 	block *ssa.BasicBlock
+}
+
+type mapRange struct {
+	vis  string // state array: keys produced so far
+	dom0 string // key set when the range statement started
+	m    Val
+	ks   string
 }
 
 type relPoint struct {
